@@ -768,8 +768,11 @@ func (o *C12) AfterEnd(w *World) {
 			o.refunded[key] = true
 			w.St.Probe("nontrivial")
 			denom, R, ok := w.refundValue(e)
-			if !ok {
-				continue
+			if !ok || R.IsZero() {
+				continue // nothing was recorded for it (dust lost to decimal conversion): nothing to return
+			}
+			if e.RefundChainId == "hub" && e.Sender == TempAddr().String() {
+				continue // governance cold-storage transfer: minted for the purpose, nobody is owed a refund
 			}
 			switch e.RefundChainId {
 			case "hub":
@@ -794,7 +797,7 @@ func (o *C12) AfterEnd(w *World) {
 			}
 			w.St.Check("C12:expiry-due")
 			if expired(w, e, t.Cur.Time) {
-				w.Fail("C12", "expiry-due", "end-block", fmt.Sprintf("%s transfer %d (created %d, timeout %d ms) is past its timeout at block time %d but was neither refunded nor removed", ch, id, e.CreatedAt, w.Cfg.OutgoingTxTimeoutMs, t.Cur.Time.Unix()))
+				w.Fail("C12", "expiry-due", "end-block", fmt.Sprintf("%s transfer %d (created %d, timeout %d ms) is past its timeout at block time %d but was neither refunded nor removed (sender %s, refund to %s on %q, token %s, amount %s fee %s commission %s)", ch, id, e.CreatedAt, w.Cfg.OutgoingTxTimeoutMs, t.Cur.Time.Unix(), e.Sender, e.RefundAddress, e.RefundChainId, e.Token.ExternalTokenId, e.Token.Amount, e.Fee.Amount, e.ValCommission.Amount))
 				return
 			}
 		}
